@@ -117,6 +117,23 @@ def r2_all_properties(ctx, cb):
         heads = [h for h in cb.prop_next if b.dominates(h.bb, c.bb)]
         head = max(heads, key=lambda h: len([1 for x in heads if b.dominates(x.bb, h.bb)])) if heads else None
         ok = kv.fields() and kv.fields()[-1] == '.name' and head is not None and kv.key == head.bb
+        if not ok and kv.fields() and kv.fields()[-1] == '.name':
+            # the property may arrive through a join (an expanded `filter_map`) or be looked up by bit index in the
+            # terminal loop (`properties.get(i)`): its own name all the same
+            from taint import vals_of
+            alts = set(noref(x) for x in vals_of(b, noref(kv)))
+            def own(x):
+                cx = b.call_at(x.key) if x.kind == 'call' else None
+                if cx is None or x.fields()[-1:] != ('.name',):
+                    return False
+                if cx in cb.prop_next:
+                    return True
+                if cx.is_('slice::get', 'Vec::get', 'Index::index'):
+                    rv_ = noref(b.trace(b.val(cx.args[0]), ('Deref::deref', 'Vec::as_slice')))
+                    return rv_.kind == 'arg' or (rv_.kind == 'call' and b.call_at(rv_.key) is not None and
+                                                 b.call_at(rv_.key).is_('Model::properties'))
+                return False
+            ok = bool(alts) and all(own(x) for x in alts)
         ctx.check(bool(ok), rule, 'skip-key-is-own-name', b,
                   good='skip test looks up the property\'s own name',
                   bad='%s: the "already discovered" test looks up %r' % (cb.strat, kv), span=c.span)
